@@ -104,6 +104,14 @@ func makeURLKey(u *url.URL) string {
 // so that unreserved characters are decoded, and all hex digits are uppercase.
 // Follows RFC 3986 §6.2.2.2.
 func normalizePercentEncoding(s string) string {
+	// A "%" that does not start a valid escape (possible in a query) is left alone,
+	// together with everything else: rewriting around it could make two different
+	// strings equal ("%%341" and "%4%31" would both become "%41").
+	for i := 0; i < len(s); i++ {
+		if s[i] == '%' && (i+2 >= len(s) || !isHexDigit(s[i+1]) || !isHexDigit(s[i+2])) {
+			return s
+		}
+	}
 	var b strings.Builder
 	i := 0
 	for i < len(s) {
